@@ -305,10 +305,10 @@ def override_consistency_rule(mod, spc, storers, rep, rid):
     rep.floor(rid, "sites that store the definition of a named type", n, 2)
 
 
-def schema_reachable_methods(c):
-    """methods of class c reachable from schema() through this.<m>(..) / <Class>.<m>(..) calls"""
+def schema_reachable_methods(c, roots=("schema",)):
+    """methods of class c reachable from schema() (or the given roots) through this.<m>(..) / <Class>.<m>(..) calls"""
     seen = set()
-    work = ["schema"]
+    work = list(roots)
     while work:
         m = work.pop()
         if m in seen or m not in c.methods or c.methods[m]["function"].get("body") is None:
@@ -336,15 +336,19 @@ def guarded_by_absence(fn, call, name):
     return got == {"hasDefinition", "isDefinitionInProgress"}
 
 
-def instance_state_rule(mod, spc, rep, rid):
+def instance_state_rule(mod, spc, rep, rid, roots=("schema",), what="schema()", floor=22,
+                        why="what a later SchemaPrintingContext receives then depends on which contexts printed this validator before"):
     """schema() and the methods it reaches write nothing on `this`: a memo on the validator instance survives the
-    context it was filled for, so a later context is not given the definitions the first one received"""
+    context it was filled for, so a later context is not given the definitions the first one received.  The same holds
+    for the other context-threaded walks (hash / hash256 / describe / validate ..): their result for a node depends on
+    the context (`seen`, `definitions`, options), and the compiler shares one instance per distinct type (hoisting),
+    so a value stored on the instance is replayed under a different context."""
     MUT = {"set", "add", "push", "delete", "clear", "splice", "pop", "shift", "unshift"}
     n_m = 0
     for cname, c in sorted(mod.classes.items()):
-        if c is spc or "schema" not in c.methods:
+        if c is spc or not any(r in c.methods for r in roots):
             continue
-        for mname in sorted(schema_reachable_methods(c)):
+        for mname in sorted(schema_reachable_methods(c, roots)):
             fn = c.methods[mname]["function"]
             n_m += 1
             for n in walk(fn):
@@ -357,10 +361,10 @@ def instance_state_rule(mod, spc, rep, rid):
                         bad = "%s.%s(..)" % (s(mc[0]), mc[1])
                 if bad:
                     rep.ob(rid, "%s.%s/%s" % (cname, mname, bad), False,
-                           "%s.%s (reached from schema()) writes instance state (%s): what a later SchemaPrintingContext receives then depends on which contexts printed this validator before" % (cname, mname, bad),
+                           "%s.%s (reached from %s) writes instance state (%s): %s" % (cname, mname, what, bad, why),
                            mod.loc(n))
-    rep.ob(rid, "scan", True, sample={"schema_reachable_methods_scanned": n_m})
-    rep.floor(rid, "schema-reachable methods", n_m, 22)
+    rep.ob(rid, "scan", True, sample={"reachable_methods_scanned": n_m, "roots": list(roots)})
+    rep.floor(rid, "methods reachable from %s" % what, n_m, floor)
 
 
 
